@@ -128,6 +128,18 @@ func (sf *StreamFactory) createWindow(config types.Config) (window.Window, error
 	// Set performance configuration directly
 	windowConfig.PerformanceConfig = config.PerformanceConfig
 
+	// The global window aggregates per row itself instead of handing rows to the
+	// group aggregator, so it needs the aggregate argument expressions (sum(v*2))
+	// and the same evaluator the group aggregator is registered with.
+	if windowConfig.Type == window.TypeGlobal {
+		if windowConfig.FieldExpressions == nil {
+			windowConfig.FieldExpressions = config.FieldExpressions
+		}
+		if windowConfig.ExpressionEvaluator == nil {
+			windowConfig.ExpressionEvaluator = NewDataProcessor(nil).evaluateExpressionForAggregation
+		}
+	}
+
 	return window.CreateWindow(windowConfig)
 }
 
